@@ -2,7 +2,7 @@
    Statements only; proofs in CapiProofs.v / PtreeProofs.v.  The substance "C API call =
    C++ run-time interface call" is C14-A3 plus the bitwise correspondence of drv_capi. *)
 From Coq Require Import String List Bool Arith ZArith.
-From Amgcl Require Import Ptree PtreeProofs Capi CapiProofs.
+From Amgcl Require Import Ptree PtreeProofs Capi CapiProofs Capi2 Capi2Proofs Capi2Life.
 Import ListNotations.
 Local Open Scope Z_scope.
 
@@ -84,3 +84,129 @@ Theorem C20_A3_later_settings_of_other_names_do_not_disturb script name text prm
   capi_get name (capi_sets script (capi_set name text prm)) = Some text.
 Proof. exact (capi_sets_last script name text prm). Qed.
 Print Assumptions C20_A3_later_settings_of_other_names_do_not_disturb.
+
+(* ---- H: call HISTORIES (Capi2.v).  The state of the C layer is the table handle |-> object built from the
+        CONTENTS of the caller's arrays at creation; an entry point reads the contents its arguments have at
+        the time of the call.  The C++ run-time interface is abstract (any constructors / calls, objects with
+        their own mutable state). ---- *)
+
+(* H1: the outputs of a history are a function of its CONTENTS TRACE: two caller programs (different buffer
+   addresses, arrays reused in place or fresh) with the same contents trace get the same outputs *)
+Theorem C20_H1_outputs_depend_on_contents_only
+  (V : Type) (dv : V) (X Obj Res : Type)
+  (new_precond new_solver : nat -> matrix V -> option ptree -> Obj)
+  (precond_apply : Obj -> X -> X -> X * Obj) (solver_solve : Obj -> X -> X -> (Res * X) * Obj)
+  (solver_solve_mtx : Obj -> matrix V -> X -> X -> (Res * X) * Obj)
+  hist1 hist2 tb m1 m2 tr1 tr2 tb1 tb2 m1' m2' :
+  run V dv X Obj Res new_precond new_solver precond_apply solver_solve solver_solve_mtx tb m1 hist1 = Some (tr1, tb1, m1') ->
+  run V dv X Obj Res new_precond new_solver precond_apply solver_solve solver_solve_mtx tb m2 hist2 = Some (tr2, tb2, m2') ->
+  map fst tr1 = map fst tr2 -> map snd tr1 = map snd tr2 /\ tb1 = tb2.
+Proof. exact (run_same_trace_same_outputs V dv X Obj Res new_precond new_solver precond_apply solver_solve solver_solve_mtx hist1 hist2 tb m1 m2 tr1 tr2 tb1 tb2 m1' m2'). Qed.
+Print Assumptions C20_H1_outputs_depend_on_contents_only.
+
+(* H1 (locality, unconditional): removing every apply / solve / solve_mtx on the handles in P changes no
+   output of any other call -- also for handles created later at a reused handle value *)
+Theorem C20_H1_calls_on_a_handle_do_not_affect_other_handles
+  (V : Type) (dv : V) (X Obj Res : Type)
+  (new_precond new_solver : nat -> matrix V -> option ptree -> Obj)
+  (precond_apply : Obj -> X -> X -> X * Obj) (solver_solve : Obj -> X -> X -> (Res * X) * Obj)
+  (solver_solve_mtx : Obj -> matrix V -> X -> X -> (Res * X) * Obj)
+  (P : nat -> bool) tr tb outs tb1 :
+  runR V dv X Obj Res new_precond new_solver precond_apply solver_solve solver_solve_mtx tb tr = Some (outs, tb1) ->
+  let keep := fun c => negb (is_use V X c && P (handle_of V X c)) in
+  exists tb1', runR V dv X Obj Res new_precond new_solver precond_apply solver_solve solver_solve_mtx tb (filter keep tr)
+               = Some (outs_of V X Res keep tr outs, tb1').
+Proof. exact (calls_are_local V dv X Obj Res new_precond new_solver precond_apply solver_solve solver_solve_mtx P tr tb outs tb1). Qed.
+Print Assumptions C20_H1_calls_on_a_handle_do_not_affect_other_handles.
+
+(* H1 (statelessness, given the reuse property C15 of the C++ objects): the k-th call of any history returns
+   what the same call returns right after the creations alone, every earlier use of any handle removed *)
+Theorem C20_H1_stateless_given_object_reuse
+  (V : Type) (dv : V) (X Obj Res : Type)
+  (new_precond new_solver : nat -> matrix V -> option ptree -> Obj)
+  (precond_apply : Obj -> X -> X -> X * Obj) (solver_solve : Obj -> X -> X -> (Res * X) * Obj)
+  (solver_solve_mtx : Obj -> matrix V -> X -> X -> (Res * X) * Obj)
+  (sim : Obj -> Obj -> Prop) :
+  (forall o, sim o o) -> (forall o o', sim o o' -> sim o' o) -> (forall o1 o2 o3, sim o1 o2 -> sim o2 o3 -> sim o1 o3) ->
+  (forall o rhs x, sim (snd (precond_apply o rhs x)) o) ->
+  (forall o rhs x, sim (snd (solver_solve o rhs x)) o) ->
+  (forall o A rhs x, sim (snd (solver_solve_mtx o A rhs x)) o) ->
+  (forall o o' rhs x, sim o o' -> fst (precond_apply o rhs x) = fst (precond_apply o' rhs x)) ->
+  (forall o o' rhs x, sim o o' -> fst (solver_solve o rhs x) = fst (solver_solve o' rhs x)) ->
+  (forall o o' A rhs x, sim o o' -> fst (solver_solve_mtx o A rhs x) = fst (solver_solve_mtx o' A rhs x)) ->
+  forall tr c tb outs tb1,
+  runR V dv X Obj Res new_precond new_solver precond_apply solver_solve solver_solve_mtx tb (tr ++ [c]) = Some (outs, tb1) ->
+  exists outs' tb1',
+    runR V dv X Obj Res new_precond new_solver precond_apply solver_solve solver_solve_mtx tb
+         (filter (fun c => negb (is_use V X c)) tr ++ [c]) = Some (outs', tb1')
+    /\ last outs' ONone = last outs ONone.
+Proof. exact (stateless_fresh V dv X Obj Res new_precond new_solver precond_apply solver_solve solver_solve_mtx sim). Qed.
+Print Assumptions C20_H1_stateless_given_object_reuse.
+
+(* setters / read_json / destroy on a params handle leave every other entry (e.g. a solver created from it
+   before) as it was *)
+Theorem C20_H1_params_calls_touch_no_other_handle
+  (V : Type) (dv : V) (X Obj Res : Type)
+  (new_precond new_solver : nat -> matrix V -> option ptree -> Obj)
+  (precond_apply : Obj -> X -> X -> X * Obj) (solver_solve : Obj -> X -> X -> (Res * X) * Obj)
+  (solver_solve_mtx : Obj -> matrix V -> X -> X -> (Res * X) * Obj)
+  tb c tb1 out h' :
+  exec_r V dv X Obj Res new_precond new_solver precond_apply solver_solve solver_solve_mtx tb c = Some (tb1, out) ->
+  (match c with RPSet _ _ _ _ _ | RPJson _ _ _ _ | RPDestroy _ _ _ => True | _ => False end) ->
+  handle_of V X c <> h' -> tlookup Obj h' tb1 = tlookup Obj h' tb.
+Proof. exact (params_ops_touch_nothing_else V dv X Obj Res new_precond new_solver precond_apply solver_solve solver_solve_mtx tb c tb1 out h'). Qed.
+Print Assumptions C20_H1_params_calls_touch_no_other_handle.
+
+(* H2: A1 lifted to histories: EVERY call of a history returns what the 0-based entry point returns on the
+   arrays shifted by map Z.pred (create_f, solve_f, solve_mtx_f; arrays reused in place or not) *)
+Theorem C20_H2_fortran_is_c_on_shifted_arrays_for_every_call_of_a_history
+  (V : Type) (dv : V) (X Obj Res : Type)
+  (new_precond new_solver : nat -> matrix V -> option ptree -> Obj)
+  (precond_apply : Obj -> X -> X -> X * Obj) (solver_solve : Obj -> X -> X -> (Res * X) * Obj)
+  (solver_solve_mtx : Obj -> matrix V -> X -> X -> (Res * X) * Obj)
+  hist tb m tr tb' m' :
+  run V dv X Obj Res new_precond new_solver precond_apply solver_solve solver_solve_mtx tb m hist = Some (tr, tb', m') ->
+  wf_trace V dv X Obj Res new_precond new_solver precond_apply solver_solve solver_solve_mtx tb (map fst tr) ->
+  runR V dv X Obj Res new_precond new_solver precond_apply solver_solve solver_solve_mtx tb (map (defort V X) (map fst tr))
+  = Some (map snd tr, tb').
+Proof. exact (run_defort V dv X Obj Res new_precond new_solver precond_apply solver_solve solver_solve_mtx hist tb m tr tb' m'). Qed.
+Print Assumptions C20_H2_fortran_is_c_on_shifted_arrays_for_every_call_of_a_history.
+
+(* the histories refine the bare protocol of A2: a history has defined behaviour (no dangling or wrongly typed
+   handle reaches a static_cast) iff its erasure to create / use / destroy steps is a disciplined script *)
+Theorem C20_H_history_defined_iff_disciplined
+  (V : Type) (dv : V) (X Obj Res : Type)
+  (new_precond new_solver : nat -> matrix V -> option ptree -> Obj)
+  (precond_apply : Obj -> X -> X -> X * Obj) (solver_solve : Obj -> X -> X -> (Res * X) * Obj)
+  (solver_solve_mtx : Obj -> matrix V -> X -> X -> (Res * X) * Obj) tr :
+  runR V dv X Obj Res new_precond new_solver precond_apply solver_solve solver_solve_mtx [] tr <> None
+  <-> disciplined [] (flat_map (erase V X) tr) = true.
+Proof. exact (history_defined_iff_disciplined V dv X Obj Res new_precond new_solver precond_apply solver_solve solver_solve_mtx tr). Qed.
+Print Assumptions C20_H_history_defined_iff_disciplined.
+
+(* H3: the failure class "cache keyed by the ADDRESSES of the caller's arrays" (seeded C20-2) is not a
+   refinement of the model: two caller programs with the same contents trace (a matrix with another pattern
+   and the same nnz reassembled in place / written to fresh arrays) get different outputs from it *)
+Theorem C20_H3_address_keyed_cache_refuted :
+  option_map (fun r => map fst (fst (fst r))) (obs_run (ac_hist 1 2)) =
+  option_map (fun r => map fst (fst (fst r))) (obs_run (ac_hist 11 12))
+  /\ option_map (fun r => map snd (fst (fst r))) (obs_run (ac_hist 1 2)) = obs_run_ac (ac_hist 11 12)
+  /\ obs_run_ac (ac_hist 1 2) <> obs_run_ac (ac_hist 11 12).
+Proof. exact address_keyed_cache_refuted. Qed.
+Print Assumptions C20_H3_address_keyed_cache_refuted.
+
+(* the hypotheses of H1 (reuse) and H2 (well-formed Fortran calls) are satisfiable: the observer instance *)
+Example C20_H_hypotheses_satisfiable :
+  (forall o rhs x, snd (obs_solve_mtx o [] rhs x) = o)
+  /\ match obs_run (ac_hist 1 2) with
+     | Some (tr, _, _) =>
+         wf_trace obsV 0%Z obsX unit (matrix obsV) obs_new obs_new obs_apply obs_solve obs_solve_mtx [] (map fst tr)
+         /\ length tr = 3%nat
+     | None => False
+     end.
+Proof.
+  split; [reflexivity|]. vm_compute. split; [|reflexivity].
+  split; [exists 3%nat; repeat split; reflexivity|].
+  split; [intros n o H; injection H as <- <-; exists 3%nat; repeat split; reflexivity|].
+  split; [intros n o H; injection H as <- <-; exists 3%nat; repeat split; reflexivity|exact I].
+Qed.
